@@ -228,7 +228,8 @@ func (c *ChunkComposer) RunLoop(reader io.Reader, cb OnCompleteMessage) error {
 					stream.msg.Skip(3)
 					aggregateStream.timestamp += uint32(stream.msg.buff.Bytes()[0]) << 24
 					stream.msg.Skip(1)
-					aggregateStream.header.MsgStreamId = int(bele.BeUint24(stream.msg.buff.Bytes()))
+					// rtmp spec 7.1.6: aggregate message的message stream id覆盖sub message中的stream id字段
+					aggregateStream.header.MsgStreamId = stream.header.MsgStreamId
 					stream.msg.Skip(3)
 
 					// 计算时间戳
